@@ -133,6 +133,10 @@ def _failing_keys(prop, overlay):
 
 def _run_case(args):
     prop, name, kind, overlay = args
+    # the self-test exercises the rules at the quick tier's bounds (the deeper bounds of the thorough tier apply to the tree itself)
+    import sa.paths as _P
+    _P.Model.loop_unroll = _P.LOOP_UNROLL
+    _P.Model.max_paths = _P.MAX_PATHS
     try:
         return name, kind, 'ok', _failing_keys(prop, overlay)
     except AnalysisError as e:
@@ -147,7 +151,20 @@ def cases_for(prop):
         own = list(mod.cases())
     except ModuleNotFoundError:
         own = []
-    return own + seeded_cases(prop)
+    return own + seeded_cases(prop) + auto_twin_cases(prop)
+
+
+def auto_twin_cases(prop):
+    """Automatic twins (selftest/autotwins.py): every single-site behaviour-preserving rewrite of the functions in the
+    modules the property analyses.  Skipped when VERIF_AUTOTWINS=0."""
+    if os.environ.get('VERIF_AUTOTWINS', '1') == '0':
+        return []
+    try:
+        from selftest import autotwins
+        vs = autotwins.variants_for(prop)
+    except Exception:
+        return []
+    return [{'name': 'auto:' + what, 'kind': 'twin', 'edit': (lambda o=overlay: o)} for what, overlay in vs]
 
 
 def run_selftest(prop, seed=0, verbose=False, jobs=16):
